@@ -13,7 +13,6 @@ oracle : exact Fraction integrals (independent code) of all monomials up to the 
          load; partition-of-unity mass sums.  Tolerance 1e-11 relative to the size of the integrand.
 """
 import itertools
-import math
 from fractions import Fraction
 
 import numpy as np
@@ -104,21 +103,28 @@ def run(ctx):
     except TranslateError as e:
         ctx.broke('translator', 'c02_t2.translate_all', e)
         gen_ok = False
-    if gen_ok:
-        gen_ok = ctx.compile_dyn(['gen/C02Gen.v'] + ctx.copy_dyn(), timeout=600)
-    ctx.prove()
     tr = Track(ctx)
     meshes = _meshes(ctx)
-    if gen_ok:
-        _correspond(ctx, meshes)
-    import traceback
-    for fn, args in ((_oracle_cells, (ctx, meshes, tr)), (_oracle_facets, (ctx, meshes, tr)), (_oracle_invariance, (ctx, meshes, tr)),
-                     (_oracle_lagrange, (ctx, tr)), (_oracle_partition_of_unity, (ctx, meshes, tr))):
-        try:
-            fn(*args)
-        except Exception as e:     # the implementation raised on a valid straight-sided integer mesh
-            ctx.fail(f'exception:{fn.__name__}:{type(e).__name__}', f'{type(e).__name__} raised by the implementation during {fn.__name__}: {e}',
-                     {'traceback': traceback.format_exc()[-3000:], 'seed': ctx.seed})
+
+    def oracles():
+        import traceback
+        for fn, args in ((_oracle_cells, (ctx, meshes, tr)), (_oracle_facets, (ctx, meshes, tr)), (_oracle_invariance, (ctx, meshes, tr)),
+                         (_oracle_lagrange, (ctx, tr)), (_oracle_partition_of_unity, (ctx, meshes, tr))):
+            try:
+                fn(*args)
+            except Exception as e:     # the implementation raised on a valid straight-sided integer mesh
+                ctx.fail(f'exception:{fn.__name__}:{type(e).__name__}', f'{type(e).__name__} raised by the implementation during {fn.__name__}: {e}',
+                         {'traceback': traceback.format_exc()[-3000:], 'seed': ctx.seed})
+    # the oracle (pure Python) runs in a second thread while coqc compiles
+    from concurrent.futures import ThreadPoolExecutor
+    with ThreadPoolExecutor(1) as ex:
+        fut = ex.submit(oracles)
+        if gen_ok:
+            gen_ok = ctx.compile_dyn(['gen/C02Gen.v'] + ctx.copy_dyn(), timeout=600)
+        ctx.prove()
+        if gen_ok:
+            _correspond(ctx, meshes)
+        fut.result()
     ctx.extra['max_relative_discrepancy'] = tr.maxrel
     ctx.extra['max_relative_discrepancy_at'] = tr.where
     ctx.extra['tolerance'] = RTOL
@@ -130,7 +136,7 @@ def _meshes(ctx):
     out = []
     plan = [('line', False), ('line', True), ('tri', False), ('tri', True), ('tet', False), ('tet', True),
             ('quad', False), ('quad', True), ('hex', False), ('wedge', False)]
-    reps = ctx.n(2, 5)
+    reps = ctx.n(2, 8)
     for kind, general in plan:
         for rep in range(reps):
             for _try in range(50):
@@ -393,7 +399,7 @@ def _oracle_lagrange(ctx, tr):
     cfgs = [('line', 1, skfem.ElementLineP1), ('line', 2, skfem.ElementLineP2), ('tri', 1, skfem.ElementTriP1), ('tri', 2, skfem.ElementTriP2),
             ('tet', 1, skfem.ElementTetP1), ('tet', 2, skfem.ElementTetP2)]
     for kind, deg, E in cfgs:
-        for rep in range(ctx.n(1, 3)):
+        for rep in range(ctx.n(1, 4)):
             for _try in range(50):
                 m = X.make_mesh(kind, rng, general=(rep % 2 == 0 and kind != 'line'))
                 if X.is_valid(m) and float(np.abs(m.p).max()) <= 30:
@@ -412,7 +418,6 @@ def _oracle_lagrange(ctx, tr):
                 continue
             r = float(np.abs(m.p).max()) + 1.0
             meas = float(sum(X.cell_integrals(m, {tuple([0] * d): Fraction(1)})))
-            hmin = 1.0
             for nm, got, ex, sc in (('mass', A, M, meas), ('stiffness', S, K, meas * 4.0 * deg * deg * 16), ('load', b, L, meas * r)):
                 worst = 0.0
                 for i, li in enumerate(locs):
